@@ -57,10 +57,14 @@ type HarnessResult struct {
 	TimedOut     bool
 	ParamsUsed   map[string]int
 	UnwindMax    int
+	CacheHits    int
 	Fns          map[string]int
 }
 
-type workItem struct{ trail []int }
+type workItem struct {
+	trail []int
+	model map[string]uint64
+}
 
 func (g *Engine) Explore(harness string, params map[string]int, nworkers int, deadline time.Time, maxWitness int) *HarnessResult {
 	entry := g.pkg.Func(harness)
@@ -73,7 +77,7 @@ func (g *Engine) Explore(harness string, params map[string]int, nworkers int, de
 	t0 := time.Now()
 	var mu sync.Mutex
 	cond := sync.NewCond(&mu)
-	work := []workItem{{nil}}
+	work := []workItem{{nil, nil}}
 	active := 0
 	stop := false
 	sigSeen := map[string]bool{}
@@ -117,6 +121,7 @@ func (g *Engine) Explore(harness string, params map[string]int, nworkers int, de
 			e := g.newExec(harness, it.trail, s)
 			e.params = params
 			e.paramsUsed = map[string]int{}
+			e.trailModel = it.model
 			e.runPath(entry)
 			var wmodel map[string]uint64
 			feasibleEnd := true
@@ -220,9 +225,10 @@ func (g *Engine) Explore(harness string, params map[string]int, nworkers int, de
 					res.Witnesses = append(res.Witnesses, Witness{Trail: append([]int{}, e.taken...), Free: append([]int{}, e.freeTaken...), Model: wmodel, Covers: cs})
 				}
 			}
-			for _, w := range e.newWork {
-				work = append(work, workItem{w})
+			for i, w := range e.newWork {
+				work = append(work, workItem{w, e.newWorkModels[i]})
 			}
+			res.CacheHits += e.cacheHits + e.trivialFeasible
 			if time.Now().After(deadline) {
 				stop = true
 				res.TimedOut = true
